@@ -96,6 +96,18 @@ type Opts struct {
 	Params         map[*ssa.Parameter]*Term
 	FreeVars       map[*ssa.FreeVar]*Term
 	RecordLoads    bool
+	// OnInstr is called for index / slice / make / type-assert / division
+	// instructions with their operand terms (bounds obligations); nil = off.
+	OnInstr func(x *Explorer, fn *ssa.Function, in ssa.Instruction, ops []*Term)
+	// AfterCall is called after a non-inlined call got its result term; rules
+	// use it to assume library facts about the result (AssumeLit / AssumeGE / AssumeLE).
+	AfterCall func(x *Explorer, ev *Event)
+	// OnFact is called whenever a branch literal is recorded, so that rules can
+	// assume its consequences (e.g. HasPrefix(s, ";") => len(s) >= 1).
+	OnFact func(x *Explorer, t *Term, pol bool)
+	// LoopInvariants: seed counting-loop invariants (lower bound of the
+	// counter, counter <= bound) when a loop head is generalised.
+	LoopInvariants bool
 	// Observe is called for every non-inlined call before its effects on
 	// memory are applied (rules use Peek to read the state the callee sees).
 	Observe func(x *Explorer, ev *Event)
@@ -154,6 +166,8 @@ type Explorer struct {
 	facts   map[int]bool
 	known   map[int]*Term // term ID -> constant it is known to equal
 	bounds  map[int]bound // term ID -> interval learnt from literals
+	inOnFact bool
+	depth    int // prover recursion depth
 	ftrail  []factTrail
 	events  []Event
 	lits    []Lit
@@ -317,7 +331,30 @@ func (x *Explorer) setMem(addr, val *Term) {
 	x.cells[addr.ID] = addr
 }
 
+// AssumeLit records that boolean term t has value v on the current path.
+func (x *Explorer) AssumeLit(t *Term, v bool) {
+	if t.Kind == KNot {
+		t, v = t.Args[0], !v
+	}
+	if _, isC := t.BoolVal(); isC {
+		return
+	}
+	x.setFact(t, v)
+}
+
+// AssumeGE / AssumeLE record constant bounds of an integer term.
+func (x *Explorer) AssumeGE(t *Term, c int64) { x.tighten(t, c, true) }
+func (x *Explorer) AssumeLE(t *Term, c int64) { x.tighten(t, c, false) }
+
+// AssumeLEq records a <= b for two terms.
+func (x *Explorer) AssumeLEq(a, b *Term) { x.AssumeLit(x.Lt(b, a), false) }
+
 func (x *Explorer) setFact(t *Term, v bool) {
+	if x.Opts.OnFact != nil && !x.inOnFact {
+		x.inOnFact = true
+		x.Opts.OnFact(x, t, v)
+		x.inOnFact = false
+	}
 	old, ok := x.facts[t.ID]
 	x.ftrail = append(x.ftrail, factTrail{id: t.ID, old: old, existed: ok})
 	x.facts[t.ID] = v
@@ -325,6 +362,45 @@ func (x *Explorer) setFact(t *Term, v bool) {
 		oldT, ok := x.known[t.Args[0].ID]
 		x.ftrail = append(x.ftrail, factTrail{id: t.Args[0].ID, kv: true, oldT: oldT, existed: ok})
 		x.known[t.Args[0].ID] = t.Args[1]
+	}
+	// s == "" / s != "" : length facts
+	if t.Kind == KEq && t.Args[1].IsConst() && isStringType(t.Args[0].Type) {
+		if sv, ok := t.Args[1].StrVal(); ok && sv == "" {
+			l := x.Len(t.Args[0])
+			if v {
+				x.tighten(l, 0, false)
+			} else {
+				x.tighten(l, 1, true)
+			}
+		}
+	}
+	if t.Kind == KEq && !v && isIntegerTerm(t.Args[0]) {
+		if c, ok := t.Args[1].Int64(); ok {
+			if lo, has := x.lower(t.Args[0]); has && lo == c {
+				x.tighten(t.Args[0], c+1, true)
+			}
+			if hi, has := x.upper(t.Args[0]); has && hi == c {
+				x.tighten(t.Args[0], c-1, false)
+			}
+		}
+	}
+	if t.Kind == KLt && !t.Args[0].IsConst() && !t.Args[1].IsConst() {
+		a, b := t.Args[0], t.Args[1]
+		if v { // a < b
+			if lo, has := x.lower(a); has {
+				x.tighten(b, lo+1, true)
+			}
+			if hi, has := x.upper(b); has {
+				x.tighten(a, hi-1, false)
+			}
+		} else { // a >= b
+			if lo, has := x.lower(b); has {
+				x.tighten(a, lo, true)
+			}
+			if hi, has := x.upper(a); has {
+				x.tighten(b, hi, false)
+			}
+		}
 	}
 	if t.Kind == KLt {
 		a, b := t.Args[0], t.Args[1]
@@ -402,6 +478,14 @@ func (x *Explorer) Decide(t *Term) (val, ok bool) {
 		}
 	case KLt:
 		a, b := t.Args[0], t.Args[1]
+		// antisymmetry: b < a known true => a < b false
+		if rv := x.T.tab; rv != nil {
+			if r := x.lookupLt(b, a); r != nil {
+				if fv, ok := x.facts[r.ID]; ok && fv {
+					return false, true
+				}
+			}
+		}
 		ka, kb := a, b
 		if k, ok := x.known[a.ID]; ok {
 			ka = k
@@ -497,4 +581,10 @@ func (x *Explorer) liveIDs() []int {
 		}
 	}
 	return ids
+}
+
+// lookupLt finds the existing hash-consed term (a < b) without creating it.
+func (x *Explorer) lookupLt(a, b *Term) *Term {
+	t := Term{Kind: KLt, Args: []*Term{a, b}, Type: types.Typ[types.Bool]}
+	return x.T.find(t)
 }
